@@ -125,7 +125,11 @@ func c20RunStashCase(c *lib.Ctx, dir string, cs c20StashCase, reply string) *c20
 		if i >= 0 {
 			at = fmt.Sprintf("operation %d: Stash.%s", i+1, cs.Ops[i].show())
 		}
-		return &c20Problem{sig: fmt.Sprintf("%sop=%s step=%s aspect=%s", cell, kind, step, aspect),
+		vs, suffix := strings.HasPrefix(from, "model:"), ""
+		if vs {
+			suffix = " vs=model"
+		}
+		return &c20Problem{vsModel: vs, at: i, sig: fmt.Sprintf("%sop=%s step=%s aspect=%s%s", cell, kind, step, aspect, suffix),
 			replay: map[string]any{"input": cs.show(), "request": req, "guarded": cs.Guarded, "at": at, "observed": observed, "expected": expected,
 				"expected_from": from, "relies_on": []string{"SlipVerif.History.stash_encode_decode"}}}
 	}
@@ -151,6 +155,7 @@ func c20RunStashCase(c *lib.Ctx, dir string, cs c20StashCase, reply string) *c20
 	for _, f := range c20StashForms(s) {
 		universe[f.wire()] = true
 	}
+	knownHit := false
 	for i, op := range cs.Ops {
 		kind := "stash-add"
 		if op.Kind == "C" {
@@ -159,7 +164,6 @@ func c20RunStashCase(c *lib.Ctx, dir string, cs c20StashCase, reply string) *c20
 			universe[op.Form.wire()] = true
 		}
 		before := c20StashForms(s)
-		beforeW := c20FormsWire(before)
 		start := c20ReadFile(path)
 		var snaps []c20Snap
 		pmsg := ""
@@ -176,7 +180,9 @@ func c20RunStashCase(c *lib.Ctx, dir string, cs c20StashCase, reply string) *c20
 				}
 			}()
 			if op.Kind == "A" {
-				s.Add(c20ToRepl(op.Form))
+				rf := c20ToRepl(op.Form)
+				s.Add(rf)
+				c20Scribble(rf)
 			} else {
 				s.Clear(op.A, op.B)
 			}
@@ -201,13 +207,21 @@ func c20RunStashCase(c *lib.Ctx, dir string, cs c20StashCase, reply string) *c20
 			}
 			return problem(i, kind, "final", asp, "a restart loads "+c20ShowLoad(L)+" from stash file="+c20ShowContent(got), "loads "+c20ShowLoad(exps[i].Load), "model:hist.stash")
 		}
-		if L != afterW {
+		// the property itself (see the history runner): always in sweep cells; in composite sessions
+		// whenever the model says that memory and file agree (forms outside the guard stashOK are
+		// mirrored by the model and were just compared with it)
+		if L != afterW && !knownHit && (cs.Cell != "" || !cs.Guarded || exps[i].Load == exps[i].Mem) {
 			asp := "lost"
 			if L != "!" {
 				asp = c20Aspect(c20ParseForms(L), after, universe)
 			}
-			return problem(i, kind, "final", asp, "a restart loads "+c20ShowLoad(L)+" from stash file="+c20ShowContent(got),
+			p := problem(i, kind, "final", asp, "a restart loads "+c20ShowLoad(L)+" from stash file="+c20ShowContent(got),
 				"what is in memory: "+c20ShowForms(after), "property: restart loads what is in memory")
+			if cs.Cell == "" || c.Findings.Match(c.Prop, p.sig) == nil || c.Replay != "" {
+				return p
+			}
+			c20Report(c, p, true) // a listed finding: count it, go on comparing the rest of the cell with the model
+			knownHit = true
 		}
 		if cs.Guarded && !c20Same(got, exps[i].Stash) {
 			return &c20Problem{noInput: true, sig: fmt.Sprintf("fs-bytes op=%s step=final", kind), replay: map[string]any{"input": cs.show(), "request": req,
@@ -229,6 +243,11 @@ func c20RunStashCase(c *lib.Ctx, dir string, cs c20StashCase, reply string) *c20
 			}
 			k := 0
 			last, loaded := start, false
+			// what a restart loads from the file before and after the operation (the normalised stash
+			// when forms outside the guard are in it)
+			finalLoad := L
+			c20PutFile(snap, start)
+			_, loadStart := c20StashFresh(snap)
 			for _, sn := range snaps {
 				if sn.After {
 					k++
@@ -239,7 +258,9 @@ func c20RunStashCase(c *lib.Ctx, dir string, cs c20StashCase, reply string) *c20
 				last, loaded = sn.Hist, true
 				c20PutFile(snap, sn.Hist)
 				_, L := c20StashFresh(snap)
-				ok := L == beforeW || L == afterW || (op.Kind == "C" && L != "!" && c20IsPrefix(L, afterW))
+				// (a stash that holds a text the reader rejects cannot be loaded at all, "!": then only the
+				// comparison with the model below says anything about the states in between)
+				ok := L == loadStart || L == finalLoad || (op.Kind == "C" && (finalLoad == "!" || (L != "!" && c20IsPrefix(L, finalLoad))))
 				step := strconv.Itoa(k)
 				if !ok {
 					asp := "lost"
@@ -266,7 +287,50 @@ func c20RunStashCase(c *lib.Ctx, dir string, cs c20StashCase, reply string) *c20
 	return nil
 }
 
-var c20StashAtoms = []string{"a", "b", "foo", "bar-baz", "x1", "+", "*", "<=", "1", "42", "-7", "t", "nil", ":key", "\"str\"", "\"é 日本 🙂\"", "\"two words\""}
+var c20StashAtoms = []string{"a", "b", "foo", "bar-baz", "x1", "+", "*", "<=", "1", "42", "-7", "t", "nil", ":key", "\"str\"", "\"é 日本 🙂\"", "\"two words\"",
+	"héllo", "λ", "日本", "naïve", "\"ñ ü\""}
+
+// c20StashDamaged: a form outside the guard stashOK of a kind the model mirrors exactly: tabs (in the
+// first line, in a later line, as indentation, inside a string, at the end), an empty line inside,
+// a complete first line, and (rarely) an open list or a stray closing parenthesis.
+func c20StashDamaged(r *lib.Rng) c20Form {
+	f := append(c20Form{}, c20StashForm(r)...)
+	for len(f) < 2 && r.Chance(70) {
+		f = append(c20Form{}, c20StashForm(r)...)
+	}
+	switch p := r.Intn(100); {
+	case p < 22: // a tab somewhere in a random line (between tokens or inside a string)
+		i := r.Intn(len(f))
+		rs := []rune(f[i])
+		k := r.Intn(len(rs) + 1)
+		f[i] = string(rs[:k]) + "\t" + string(rs[k:])
+	case p < 45: // tab indentation of a later line
+		if len(f) > 1 {
+			i := 1 + r.Intn(len(f)-1)
+			f[i] = "\t" + strings.TrimLeft(f[i], " ")
+		} else {
+			f[0] = "\t" + f[0]
+		}
+	case p < 55:
+		f[len(f)-1] += "\t"
+	case p < 70: // an empty line inside
+		i := 1
+		if len(f) > 1 {
+			i = 1 + r.Intn(len(f)-1)
+		}
+		f = append(f[:i], append(c20Form{""}, f[i:]...)...)
+	case p < 85: // two complete texts on two lines
+		f = c20Form{c20StashForm(r)[0], "(second " + r.Pick(c20StashAtoms) + ")"}
+		if strings.Count(f[0], "(") != strings.Count(f[0], ")") {
+			f[0] = "(first)"
+		}
+	case p < 94: // an open list
+		f = c20Form{"(open " + r.Pick(c20StashAtoms)}
+	default:
+		f = c20Form{r.Pick(c20StashAtoms) + ")"}
+	}
+	return f
+}
 
 // c20StashForm: one top-level list (possibly broken over several lines inside the list, so that no
 // proper prefix of its lines is a complete text) or one line of atoms.
@@ -321,16 +385,20 @@ func c20StashSweep() []c20StashCase {
 	a := func(s ...string) c20Op { return c20Op{Kind: "A", Form: c20Form(s)} }
 	var cases []c20StashCase
 	in := map[string]c20Form{
-		"atom":                {"foo"},
-		"atoms-on-a-line":     {"foo 1 bar"},
-		"list":                {"(+ 1 2)"},
-		"multi-line":          {"(defun f (x)", "  (+ x 1))"},
-		"quoted":              {"'(a", " b)"},
-		"non-ascii-in-string": {"(print \"é 日本 🙂\")"},
-		"leading-blanks":      {"  (a b)"},
-		"trailing-blanks":     {"(a b)  "},
-		"spaces-only":         {"   "},
-		"no-lines":            {},
+		"atom":                       {"foo"},
+		"atoms-on-a-line":            {"foo 1 bar"},
+		"list":                       {"(+ 1 2)"},
+		"multi-line":                 {"(defun f (x)", "  (+ x 1))"},
+		"quoted":                     {"'(a", " b)"},
+		"non-ascii-in-string":        {"(print \"é 日本 🙂\")"},
+		"non-ascii-symbol":           {"(λ x é)"},
+		"non-ascii-later-line":       {"(setq héllo", "  \"ñ\" 日本)"},
+		"blank-prefixed-later-lines": {"(a", "    b", "  　c)"},
+		"trailing-blank-lines":       {"(a  ", " b) "},
+		"leading-blanks":             {"  (a b)"},
+		"trailing-blanks":            {"(a b)  "},
+		"spaces-only":                {"   "},
+		"no-lines":                   {},
 	}
 	names := make([]string, 0, len(in))
 	for n := range in {
@@ -340,20 +408,34 @@ func c20StashSweep() []c20StashCase {
 	for _, n := range names {
 		cases = append(cases, c20StashCase{Cell: "stash/" + n, Guarded: true, Ops: []c20Op{a("(first)"), {Kind: "A", Form: in[n]}, a("(last 1)")}})
 	}
+	// forms outside the guard stashOK. The model mirrors what LoadExpanded does to them (modelled =
+	// true): a tab is a line break, empty lines vanish, a complete first line ends the form, an open
+	// list swallows what follows, a stray `)` makes the loader panic. Each construct is its own cell so
+	// that a finding excuses exactly one construct; neighbouring constructs that work are in-guard
+	// cells above. Every cell goes on with two more forms and is compared with the model to the end.
 	out := []struct {
-		name string
-		f    c20Form
+		name     string
+		f        c20Form
+		modelled bool
 	}{
-		{"two-complete-lines", c20Form{"(a)", "(b)"}},
-		{"interior-empty-line", c20Form{"(a", "", " b)"}},
-		{"tab-in-line", c20Form{"(a\tb)"}},
-		{"incomplete", c20Form{"(a b"}},
-		{"unbalanced-close", c20Form{"a)"}},
-		{"non-ascii-symbol", c20Form{"(λ x)"}},
-		{"open-string", c20Form{"(print \"abc"}},
+		{"two-complete-lines", c20Form{"(a)", "(b)"}, true},
+		{"interior-empty-line", c20Form{"(a", "", " b)"}, true},
+		{"tab-in-line", c20Form{"(a\tb)"}, true},
+		{"tab-first-line-of-multiline", c20Form{"(a\tb", " c)"}, true},
+		{"tab-indented-later-line", c20Form{"(defun foo (x)", "\t(bar x))"}, true},
+		{"tab-inside-later-line", c20Form{"(a", " b\tc)"}, true},
+		{"tab-in-string", c20Form{"(print \"a\tb\")"}, true},
+		{"tab-in-string-later-line", c20Form{"(list 1", "  \"a\tb\" 2)"}, true},
+		{"tab-trailing", c20Form{"(a b)\t"}, true},
+		{"tab-leading", c20Form{"\t(a b)"}, true},
+		{"incomplete", c20Form{"(a b"}, true},
+		{"unbalanced-close", c20Form{"a)"}, true},
+		{"open-string", c20Form{"(print \"abc"}, false},
+		{"paren-in-string", c20Form{"(print \"(\")"}, false},
+		{"semicolon-comment-paren", c20Form{"(a ; (", " b)"}, false},
 	}
 	for _, o := range out {
-		cases = append(cases, c20StashCase{Cell: "stash/" + o.name, Guarded: false, Ops: []c20Op{a("(first)"), {Kind: "A", Form: o.f}, a("(last 1)")}})
+		cases = append(cases, c20StashCase{Cell: "stash/" + o.name, Guarded: o.modelled, Ops: []c20Op{a("(first)"), {Kind: "A", Form: o.f}, a("(last 1)"), a("(defun g ()", "  2)")}})
 	}
 	// Clear(start, end) grid on five forms, then add and restart
 	var five []c20Op
@@ -365,6 +447,11 @@ func c20StashSweep() []c20StashCase {
 			cases = append(cases, c20StashCase{Cell: fmt.Sprintf("stash-clear/%d,%d", x, y), Guarded: true,
 				Ops: append(append([]c20Op{}, five...), c20Op{Kind: "C", A: x, B: y}, a("(after)"))})
 		}
+	}
+	// LineReader buffer boundaries (4096 bytes) in the stash file
+	for _, off := range []int{4095, 4096, 4097} {
+		content := "(a " + strings.Repeat("x", off-5) + ")\n\n(second \"é\"\n  2)\n\n"
+		cases = append(cases, c20StashCase{Cell: fmt.Sprintf("stash-linereader/nl-at-%d", off), Guarded: true, Stash0: &content, Ops: []c20Op{a("(d)")}})
 	}
 	// an existing stash file in the expanded and in the tab format
 	cases = append(cases, c20StashCase{Cell: "stash-init/expanded", Guarded: true, Stash0: c20Str("(a\n b)\n\n(c)\n\n"), Ops: []c20Op{a("(d)"), {Kind: "C", A: 0, B: 0}}})
@@ -379,6 +466,8 @@ func c20StashComposite(c *lib.Ctx, r *lib.Rng) c20StashCase {
 		pool[i] = c20StashForm(r)
 	}
 	partial := !c.Findings.Listed("C20", "cell=stash-clear/")
+	// two thirds of the sessions also stash forms outside the guard (mirrored by the model)
+	damaged := r.Chance(66)
 	var last c20Form
 	for n := 3 + r.Intn(22); n > 0; n-- {
 		switch p := r.Intn(100); {
@@ -397,6 +486,9 @@ func c20StashComposite(c *lib.Ctx, r *lib.Rng) c20StashCase {
 			if r.Chance(30) {
 				f = c20StashForm(r)
 			}
+			if damaged && r.Chance(18) {
+				f = c20StashDamaged(r)
+			}
 			last = f
 			cs.Ops = append(cs.Ops, c20Op{Kind: "A", Form: f})
 		}
@@ -413,7 +505,7 @@ func c20RunStash(c *lib.Ctx) (int, int) {
 	for i := c.Scale(150, 1500); i > 0; i-- {
 		cases = append(cases, c20StashComposite(c, c20Rng))
 	}
-	// the generator's forms must satisfy the model's guard
+	// how many stashed forms are inside the model's guard stashOK (evidence only)
 	var reqs, guardReqs []string
 	for _, cs := range cases {
 		if cs.Guarded {
@@ -425,22 +517,11 @@ func c20RunStash(c *lib.Ctx) (int, int) {
 			}
 		}
 	}
-	guardReplies := c.Model(guardReqs)
-	gi := 0
-	for _, cs := range cases {
-		if !cs.Guarded {
-			continue
-		}
-		for _, o := range cs.Ops {
-			if o.Kind != "A" {
-				continue
-			}
-			empty := strings.TrimSpace(strings.Join(o.Form, "")) == ""
-			if guardReplies[gi] != "ok t" && !empty {
-				fmt.Fprintf(os.Stderr, "c20: generator produced a stash form outside the guard: %s\n", o.Form.show())
-				os.Exit(2)
-			}
-			gi++
+	for _, g := range c.Model(guardReqs) {
+		if g == "ok t" {
+			c.Ev.Hist("stash_form", "inside-guard")
+		} else {
+			c.Ev.Hist("stash_form", "outside-guard-or-empty")
 		}
 	}
 	replies := c.Model(reqs)
